@@ -47,7 +47,11 @@ def generic_violations(case, results, expect_crash=None):
 def evaluate(prof, case, libs, timeout):
     """run a case and apply the profile's oracles. returns (violations, stats, results)"""
     lib = libs[case.get("build", "plain")]
-    results = world.run_case(case, lib, timeout)
+    results = []
+    for i in range(len(case["lifetimes"])):
+        if results and hasattr(prof, "continue_after") and not prof.continue_after(case, results):
+            break
+        results.append(world.run_lifetime(case, i, lib, timeout))
     viol = generic_violations(case, results)
     stats = {}
     harness = [v for v in viol if v["class"] == "harness"]
